@@ -373,6 +373,7 @@ var (
 	LkErrWrite  = errors.New("injected write error")
 	LkErrWOpen  = errors.New("injected write-open error")
 	LkErrCommit = errors.New("injected commit error")
+	LkErrReify  = errors.New("injected reifier error")
 )
 
 // LkErrClass maps an error of a LinkSystem call to the model's classes.  rest names the class of
@@ -395,6 +396,8 @@ func LkErrClass(err error, rest string) string {
 		return "err.open"
 	case err == LkErrCommit:
 		return "err.commit"
+	case err == LkErrReify:
+		return "err.reify"
 	}
 	return "err." + rest
 }
